@@ -388,7 +388,7 @@ def main():
 
     out = ["(* GENERATED by tools/gen/append_skeleton.py from crates/ripd/src/continuities.rs - do not edit.",
            "   Micro-step order of every continuity append path (C01, T1). *)",
-           "From RipV Require Import Base.Prelude Model.Frames Model.Log Model.ContStore Model.SessGuard Model.SeqCount.", "",
+           "From RipV Require Import Base.Prelude Model.Frames Model.Log Model.ContStore Model.SessGuard Model.SeqCount Model.SeqCreate.", "",
            "Definition gen_locked_ops : list (etype * list mstep) :=", "  ["]
     rows = []
     for name, kind, st in locked:
@@ -457,6 +457,37 @@ Proof. vm_compute. reflexivity. Qed.""")
     out.append("Definition gen_pipe_cut : cutk := %s." % cut)
     out.append("Lemma gen_pipe_cut_ok : gen_ok_pipe_cut && cutk_eqb gen_pipe_cut PIPE_CUT = true.")
     out.append("Proof. vm_compute. reflexivity. Qed.")
+    # ---- creating calls: every caller of create_continuity / create_continuity_locked creates ONCE per invocation.
+    # create_continuity_locked writes a frame with the literal seq 0: calling it twice for one id (a retry of a creation
+    # whose index save failed, a loop around it) writes the thread's seq 0 twice.  Per calling function: the number of call
+    # sites and whether one of them sits inside a loop.
+    create_callers = []
+    for m in re.finditer(r"\bfn\s+(\w+)\s*[<(]", src):
+        name = m.group(1)
+        if name in ("create_continuity_locked",):
+            continue
+        b = fn_body(src[m.start():], name)
+        if b is None:
+            continue
+        sites = [x.start() for x in re.finditer(r"\bcreate_continuity(_locked)?\s*\(", b)]
+        if not sites:
+            continue
+        in_loop = False
+        for lm in re.finditer(r"\b(loop|while\b[^{;]*|for\b[^{;]*\bin\b[^{;]*)\s*\{", b):
+            lo = b.index("{", lm.start())
+            depth, j = 1, lo + 1
+            while depth > 0 and j < len(b):
+                depth += {"{": 1, "}": -1}.get(b[j], 0)
+                j += 1
+            if any(lo < x < j for x in sites):
+                in_loop = True
+        create_callers.append((name, len(sites), in_loop))
+    out.append("")
+    out.append("(* callers of create_continuity / create_continuity_locked (continuities.rs): (call sites in the function, one of them")
+    out.append("   inside a loop) - %s *)" % "; ".join("%s %d%s" % (n, k, " LOOP" if l else "") for n, k, l in create_callers))
+    out.append("Definition gen_create_callers : list (N * bool) := %s." % lst(["(%d, %s)" % (k, "true" if l else "false") for _, k, l in create_callers]))
+    out.append("Lemma gen_create_once_ok : create_calls_ok gen_create_callers = true.")
+    out.append("Proof. vm_compute. reflexivity. Qed.")
     os.makedirs(a.out, exist_ok=True)
     open(os.path.join(a.out, "AppendOps.v"), "w").write("\n".join(out) + "\n")
     for name, kind, st in locked:
@@ -469,6 +500,7 @@ Proof. vm_compute. reflexivity. Qed.""")
     print("other functions taking the seq mutex:", extra, "read-only holders:", holders)
     print("pipe: counted list vs emitted list:", pipe_cuts)
     print("TaskEmitter::emit :", " ".join(task_steps))
+    print("callers of create_continuity(_locked):", create_callers)
     return 0
 
 
